@@ -40,7 +40,7 @@ impl Prop for C06 {
         "exploration"
     }
     fn rule(&self) -> String {
-        "complete enumeration: suites x all (n,t) up to the bound x 5 id kinds x {generate, split(1), split(q-1), split(seeded)}; per group: every share verified by independent Lagrange/commitment evaluation, EVERY t-subset reconstructs, EVERY (t-1)-subset with lowered threshold does not, and EVERY single-coordinate tampering of every share (value, identifier, each commitment entry, truncation, extension) must be rejected; u16 boundary parameters; tiny field: all polynomials x all identifier sets. Non-trivial = group generated and at least one tampering executed".into()
+        "complete enumeration: suites x all (n,t) up to the bound x 5 id kinds x {generate, split(1), split(q-1), split(seeded)}; per group: every share verified by independent Lagrange/commitment evaluation, EVERY t-subset reconstructs, EVERY (t-1)-subset with lowered threshold does not, and EVERY single-coordinate tampering of every share (value, identifier, each commitment entry, truncation, extension) must be rejected; u16 boundary parameters; big groups (300 participants t=2; 60 participants t=40); tiny field: all polynomials x all identifier sets. Non-trivial = group generated and at least one tampering executed".into()
     }
     fn assumptions(&self) -> Vec<String> {
         vec!["coefficient values on real curves come from seeded streams; all values only on the tiny field".into()]
